@@ -399,7 +399,9 @@ fn run_history(
     let parent_child_blocks = match args.extra.get("parent-child-blocks").map(|s| s.as_str()) {
         Some("on") => true,
         Some("off") => false,
-        _ => focus == Focus::C17,
+        // blocks that contain a pooled parent together with its pooled child are the
+        // normal case on a non-producer node
+        _ => true,
     };
     let mut h = Hist::new(cfg.clone(), focus, rng, parent_child_blocks);
     let mut tot = Totals {
@@ -438,6 +440,16 @@ fn run_history(
                     Focus::C16 | Focus::C17 if panic_owner(&msg) == focus => report.violation(
                         format!("{pre}{}", panic_sig(focus, &opk, &msg)),
                         format!("the pool panicked (debug assertions on) in {opk}: {msg}"),
+                        replay(&h),
+                    ),
+                    // the pool's own assertions inside extraction state that what is handed
+                    // out has no pooled parent left: C18's parent-before-child claim
+                    Focus::C18 if opk == "extract" => report.violation(
+                        format!(
+                            "{pre}{}",
+                            panic_sig(Focus::C17, &opk, &msg).replacen("c17", "c18", 1)
+                        ),
+                        format!("the pool panicked (debug assertions on) during extraction: {msg}"),
                         replay(&h),
                     ),
                     _ => report.inconclusive(format!(
@@ -502,7 +514,7 @@ fn run_history(
         // the history for every property (the pool then holds what it must not hold)
         let mut adm = c19::check_main(judged, &h.model, &h.cfg, &h.seen);
         let mut findings: Vec<Finding> = Vec::new();
-        let mut nontrivial = false;
+        let nontrivial;
         match focus {
             Focus::C16 => {
                 findings = c16::check(judged);
